@@ -16,7 +16,7 @@ import (
 )
 
 func (p *Program) runAudits(opts checkOpts) ([]map[string]interface{}, error) {
-	out := filepath.Join(verifDir, "work", opts.prop, "audit.jsonl")
+	out := filepath.Join(verifDir, "work", opts.prop+os.Getenv("VERIF_WORK_SUFFIX"), "audit.jsonl")
 	_ = os.Remove(out)
 	cmd := exec.Command("go", "test", "-count=1", "-timeout", "20m", "./audit")
 	cmd.Dir = verifDir
